@@ -44,7 +44,10 @@ func (t *MemoryDevice) ResetCount(_ context.Context, request *traits.ResetCountR
 		rt = timestamppb.Now()
 	}
 	res, err := t.count.Set(&traits.Count{Added: 0, Removed: 0, ResetTime: rt}, resource.WithAllFieldsWritable())
-	return res.(*traits.Count), err
+	if err != nil {
+		return nil, err
+	}
+	return res.(*traits.Count), nil
 }
 
 func (t *MemoryDevice) UpdateCount(_ context.Context, request *traits.UpdateCountRequest) (*traits.Count, error) {
@@ -56,7 +59,10 @@ func (t *MemoryDevice) UpdateCount(_ context.Context, request *traits.UpdateCoun
 			tValue.Removed += tOld.Removed
 		}
 	}))
-	return res.(*traits.Count), err
+	if err != nil {
+		return nil, err
+	}
+	return res.(*traits.Count), nil
 }
 
 func (t *MemoryDevice) PullCounts(request *traits.PullCountsRequest, server traits.CountApi_PullCountsServer) error {
